@@ -500,6 +500,8 @@ type FuncSpec struct {
 	Uses     []string // axioms of other packages visible here: "pkg.label"
 	Implements string // interface method whose contract this function must satisfy (refinement by identity)
 	PerSite  map[string]bool // ensures labels checked at every return site separately (before the states are merged)
+	Barriers []string // names of function-typed variables every call of which must sit alone behind a recover barrier
+	BarrierProps []string
 }
 
 type Pred struct {
@@ -539,7 +541,7 @@ var specKeywords = map[string]bool{
 	"decreases": true, "pred": true, "props": true, "safety": true, "inline": true,
 	"trusted": true, "pure": true, "protected": true, "moninv": true, "ghost": true,
 	"axiom": true, "note": true, "params": true, "results": true, "at": true, "havoc": true,
-	"unroll": true, "implements": true, "uses": true, "monghost": true, "persite": true, "carried": true,
+	"unroll": true, "implements": true, "uses": true, "monghost": true, "persite": true, "carried": true, "barrier": true,
 }
 
 func loadSpecs(files []string) (*Specs, error) {
@@ -763,6 +765,11 @@ func (sp *Specs) loadFile(path string) error {
 			cur.Safety = append(cur.Safety, strings.Fields(stripComment(d.text))...)
 		case "inline":
 			cur.Inline = true
+		case "barrier":
+			cur.Barriers = append(cur.Barriers, strings.Fields(stripComment(d.text))...)
+			if m := propRe.FindStringSubmatch(d.text); m != nil {
+				cur.BarrierProps = strings.Fields(m[1])
+			}
 		case "persite":
 			if cur.PerSite == nil {
 				cur.PerSite = map[string]bool{}
